@@ -1111,6 +1111,18 @@ class Evaluator:
             if isinstance(v, Agg) and v.var == "Some":
                 return self.as_cond(body)
             return self.logic("and", Cond("sym", "isSome(%s)" % vkey(v)), self.as_cond(body))
+        if fn.startswith("core::result::Result::<T, E>::") and name in ("map_err", "map", "and_then", "is_ok", "is_err") and args and isinstance(args[0], Agg) and args[0].var in ("Ok", "Err"):
+            # combinators on a result whose variant is known
+            v = args[0]
+            if name in ("is_ok", "is_err"):
+                return Cond("true" if (v.var == "Ok") == (name == "is_ok") else "false")
+            hit = "Err" if name == "map_err" else "Ok"
+            if v.var != hit:
+                return v
+            clo = args[1]
+            if isinstance(clo, tuple) and clo and clo[0] == "closure":
+                r = self.call_closure(clo, [v.fields.get("0")], depth + 1)
+                return r if name == "and_then" else Agg(v.adt, v.var, {"0": r})
         if fn.startswith("core::option::Option::<T>::") and name in ("and_then", "map", "map_or", "unwrap_or") and args and isinstance(args[0], Agg) and args[0].var in ("Some", "None"):
             # combinators on an option whose variant is known
             v = args[0]
